@@ -98,7 +98,9 @@ class Finders:
         # a placeholder for the link does not make its ID available, if
         # another line has it already
         same_id = self.line(gfa_line.name)
-        if same_id is not None and not same_id.virtual:
+        if same_id is not None and \
+            (not same_id.virtual or same_id.record_type != "L"):
+          # (a placeholder segment also makes the ID unavailable)
           found = same_id
       return found
     elif gfa_line.record_type in self.RECORDS_WITH_NAME:
